@@ -319,6 +319,20 @@ CLAIMS["C23"] = (
     "actually disconnected (Session.Run loop), and that backend session state survives on the pinned connection (backend semantics).",
     "DESIGN.md section 4, C23")
 
+CLAIMS["C04"] = (
+    "For statements over global tables only: postHandleGlobalTableRouteResultInModify routes a write to the full copy list of the global "
+    "rule (the route result's indexes ARE the rule's sub-table list), postHandleGlobalTableRouteResultInQuery routes a read to exactly one "
+    "copy at a valid position of that list (rand.Intn trusted: 0 <= r < n, n > 0 proved), and both leave other statements' routes alone; "
+    "generateShardingSQLs renders the statement once per routed index -- the count of rendered texts equals the number of indexes, none "
+    "skipped or shared (ghost counter, loop invariant, any number of copies) -- asks the rule for the slice and the physical database of "
+    "exactly that index (call-site obligations) and resets the cursor.",
+    "Trusted / assumed: Rule accessors as deterministic functions of the immutable rule (C07); ast Restore and the restore context as "
+    "effect-free on the route result. NOT decided: the database-name rewriting itself (TableNameDecorator / ColumnNameDecorator.Restore: string "
+    "building inside the AST visitors), that the rendered text is filed in the map under the (slice, database) asked for (nested map-of-"
+    "slices contents are not specified), INSERT routing for global tables (generateGlobalShardingSQLs), and that NewRouter gives a global rule "
+    "the namespace's slices.",
+    "DESIGN.md section 4, C04")
+
 NA = {
  "C02": "not applicable to contract-based verification here: the oracle is the result of executing SQL on data (what one MySQL holding all shards would return); no contract within reach expresses an SQL execution semantics, and the rewriter is ~3k lines of visitors over TiDB AST types (DESIGN.md section 5)",
  "C06": "not applicable: the property compares a token pre-check with the decision of the yacc-generated parser; the specification is that parser (tables + hand-written lexer), which is outside the verifier's subset (DESIGN.md section 5)",
